@@ -191,7 +191,22 @@ def r_chain(E):
     fn = desugar_comprehensions(fn)
     res.instances += 1
     outer = next((n for n in ast.walk(fn) if isinstance(n, ast.For) and norm(n.iter) == "CANONICAL_COMPUTATION_ORDER"), None)
+    sorted_by_slot = False
     if outer is None:
+        # the same order obtained by sorting: every object paired with its position(s) in CANONICAL_COMPUTATION_ORDER
+        # (enumerate + issubclass, possibly in helpers of the module) and its rank in the chain, pairs sorted ascending
+        from ..astutil import nodes_through_helpers as _nthc
+        nodes = _nthc(fn, None, depth=3, find_function=pm.function_finder(rel))
+        positions = any(isinstance(n, (ast.comprehension, ast.For)) and isinstance(n.iter, ast.Call)
+                        and norm(n.iter.func) == "enumerate" and n.iter.args
+                        and norm(n.iter.args[0]) == "CANONICAL_COMPUTATION_ORDER" for n in nodes)
+        sub = any(isinstance(n, ast.Call) and norm(n.func) == "issubclass" for n in nodes)
+        srt = [n for n in nodes if isinstance(n, ast.Call) and norm(n.func) == "sorted"]
+        plain = srt and all(not any(k.arg in ("reverse", "key") for k in c.keywords) for c in srt)
+        sorted_by_slot = bool(positions and sub and plain)
+    if outer is None and sorted_by_slot:
+        res.samples.append({"optimize_mod_objs_computation_chain": "ordered by sorting (canonical position, rank) pairs"})
+    elif outer is None:
         res.findings.append(Finding("R-CHAIN", "optimize_mod_objs_computation_chain order",
                                     "the recomputation chain is no longer re-ordered slot by slot along "
                                     "CANONICAL_COMPUTATION_ORDER", rel, fn.lineno, fn.name))
@@ -224,7 +239,13 @@ def r_chain(E):
             res.findings.append(Finding("R-CHAIN", "optimize_mod_objs_computation_chain system first",
                                         "the system is appended before the other objects", rel, c.lineno, fn.name))
         binder = None
-        if isinstance(owner, ast.Name):
+        if isinstance(owner, (ast.Name, ast.Call)):
+            # `first = next((o for o in chain if o.systems), None)`: the generator ranges over every object
+            ow = fully_expanded(owner, fn) if isinstance(owner, ast.Name) else owner
+            if isinstance(ow, ast.Call) and norm(ow.func) == "next" and ow.args and isinstance(ow.args[0], ast.GeneratorExp) \
+                    and any("systems" in norm(i) for g in ow.args[0].generators for i in g.ifs):
+                binder = ow.args[0].generators[0]
+        if binder is None and isinstance(owner, ast.Name):
             x = c
             while x is not None and x is not fn:
                 x = getattr(x, "_parent", None)
@@ -728,6 +749,7 @@ def r_cumul(E):
     from ..astutil import nodes_through_helpers, substitute
     from ..paths import formula, implies
     filt = {}
+    pkg_fn = pm.package_function_finder()
     for pname in ("storage_needed", "storage_freed"):
         owner, pf = pm.find_method("Storage", pname)
         if pf is None:
@@ -750,6 +772,16 @@ def r_cumul(E):
                 while isinstance(t, ast.Call) and isinstance(t.func, ast.Lambda) and not t.keywords \
                         and len(t.args) == len(t.func.args.args):
                     t = substitute(t.func.body, {a.arg: v for a, v in zip(t.func.args.args, t.args)})
+                # … and a predicate that is a small named function of the package (`job_deletes_data(job.data_stored)`)
+                # reads as its single returned expression
+                for _ in range(2):
+                    if isinstance(t, ast.Call) and isinstance(t.func, ast.Name) and not t.keywords:
+                        h_ = pkg_fn(t.func.id)
+                        body_ = [b for b in h_.body if not (isinstance(b, ast.Expr) and isinstance(b.value, ast.Constant))] \
+                            if h_ is not None else []
+                        if len(body_) == 1 and isinstance(body_[0], ast.Return) and body_[0].value is not None \
+                                and len(h_.args.args) == len(t.args):
+                            t = substitute(body_[0].value, {a.arg: v for a, v in zip(h_.args.args, t.args)})
                 bases = {x.value.id for x in ast.walk(t) if isinstance(x, ast.Attribute) and x.attr == "data_stored"
                          and isinstance(x.value, ast.Name)}
                 if len(bases) == 1 and not any(norm(t) == norm(u) for u in tests):
@@ -782,7 +814,9 @@ def r_json_id(E):
                                   "re-initialisation")
     rel, fn = pm.find_function(J2S, "json_to_system")
     res.instances += 1
-    news = [c for c in _calls(fn) if isinstance(c.func, ast.Attribute) and c.func.attr == "__new__"]
+    from ..astutil import nodes_through_helpers as _nthj
+    news = [c for c in _nthj(fn, None, depth=2, find_function=pm.function_finder(rel))
+            if isinstance(c, ast.Call) and isinstance(c.func, ast.Attribute) and c.func.attr == "__new__"]
     if not news:
         res.findings.append(Finding("R-JSON-ID", "objects built through constructors",
                                     "json_to_system no longer creates objects with __new__: constructors assign fresh "
@@ -1642,8 +1676,18 @@ def r_json_load(E):
     # (inside an extracted function the loop is positioned at the call that reaches it)
     upg = next((n for n in nodes_through_helpers(fn, find_function=pm.function_finder(rel), want=is_upg, depth=2)
                 if is_upg(n)), None)
-    creation = next((n for n in fn.body if isinstance(n, ast.For) and any(
-        isinstance(c, ast.Call) and isinstance(c.func, ast.Attribute) and c.func.attr == "__new__" for c in ast.walk(n))), None)
+    _has_new = lambda st: any(isinstance(c, ast.Call) and isinstance(c.func, ast.Attribute) and c.func.attr == "__new__"
+                              for c in nodes_through_helpers(st, find_function=pm.function_finder(rel), depth=2))
+    creation = next((n for n in fn.body if isinstance(n, ast.For) and _has_new(n)), None)
+    if creation is None:
+        # the same loop written as a comprehension over the sections (`{key: build(…) for key in class_keys}`)
+        for st in fn.body:
+            comp = next((c for c in ast.walk(st) if isinstance(c, (ast.DictComp, ast.ListComp)) and _has_new(c)), None) \
+                if isinstance(st, ast.Assign) else None
+            if comp is not None:
+                creation = ast.copy_location(ast.For(target=comp.generators[0].target, iter=comp.generators[0].iter,
+                                                     body=[st], orelse=[]), st)
+                break
     res.instances += 1
     if upg is None or creation is None:
         res.undecided.append("json_to_system: upgrade loop or creation loop not found")
@@ -1795,6 +1839,19 @@ def r_noop(E):
              and isinstance(n.value.func, ast.Attribute) and n.value.func.attr == "append"
              and isinstance(n.value.func.value, ast.Name) and n.value.func.value.id in dropped]
     res.instances += 1
+    keep_form = False
+    if len(marks) != 1:
+        # the other way round: the changes to *keep* are collected and written back (`self.changes_list[:] = kept`); a
+        # change is skipped exactly when the keep mark is not reached
+        kept = set()
+        for a_ in ast.walk(fn):
+            if isinstance(a_, ast.Assign) and isinstance(a_.value, ast.Name) and any(
+                    norm(t) in ("self.changes_list", "self.changes_list[:]") for t in a_.targets):
+                kept.add(a_.value.id)
+        marks = [n for n in ast.walk(fn) if isinstance(n, ast.Expr) and isinstance(n.value, ast.Call)
+                 and isinstance(n.value.func, ast.Attribute) and n.value.func.attr == "append"
+                 and isinstance(n.value.func.value, ast.Name) and n.value.func.value.id in kept]
+        keep_form = len(marks) == 1
     if len(marks) != 1:
         res.undecided.append("parse_changes_list: skip decision not found")
         return res
@@ -1803,6 +1860,10 @@ def r_noop(E):
     for a_ in ast.walk(fn):
         if isinstance(a_, (ast.Assign, ast.For)):
             t = a_.targets[0] if isinstance(a_, ast.Assign) else a_.target
+            # for index, (old, new) in enumerate(self.changes_list)
+            if isinstance(a_, ast.For) and isinstance(t, ast.Tuple) and len(t.elts) == 2 and isinstance(t.elts[1], ast.Tuple) \
+                    and isinstance(a_.iter, ast.Call) and norm(a_.iter.func) == "enumerate":
+                t = t.elts[1]
             if isinstance(t, ast.Tuple) and len(t.elts) == 2 and all(isinstance(x, ast.Name) for x in t.elts):
                 src = a_.value if isinstance(a_, ast.Assign) else a_.iter
                 if "changes_list" in norm(src) or (isinstance(src, ast.Name) and any(
@@ -1819,6 +1880,19 @@ def r_noop(E):
     conds = [(t, pol) for t, pol in path_conditions(marks[0], fn)]
     F = path_formula(conds, fn)
     eq = parse(f"{pair[0]} == {pair[1]}")
+    if keep_form:
+        # enclosing tests only (an earlier guard that raised did not skip the change, it refused the update)
+        enc, x_ = [], marks[0]
+        while x_ is not None and x_ is not fn:
+            par_ = getattr(x_, "_parent", None)
+            if isinstance(par_, ast.If):
+                if any(x_ is b for b in par_.body):
+                    enc.append((par_.test, True))
+                elif any(x_ is b for b in par_.orelse):
+                    enc.append((par_.test, False))
+            x_ = par_
+        conds = enc
+        F = ("not", path_formula(enc, fn))
     if not implies(F, eq):
         true, false = positive_atoms(conds)
         cand = [t for t in true + false if any(isinstance(x, ast.Name) and x.id in pair for x in ast.walk(t))
